@@ -1020,3 +1020,57 @@ def _wrap_pure(mon, orig, q):
             finally:
                 mon.depth -= 1
     return pure
+
+
+# ------------------------------------------------------------------------------
+# C14 in situ: every TEXT-like segment any load parses is re-tokenised by the reference
+# ------------------------------------------------------------------------------
+
+def _attach_textseg(self):
+    self.rebind(self.F.io, 'read_fcs_text_segment', lambda orig: _wrap_textseg(self, orig))
+
+
+Monitors.attach_textseg = _attach_textseg
+
+
+def _wrap_textseg(mon, orig):
+    import warnings
+    from rv.refmodels import textseg
+
+    def read_fcs_text_segment(buf, begin, end, delim=None, supplemental=False):
+        raw = None
+        try:
+            pos = buf.tell()
+            buf.seek(begin)
+            raw = buf.read((end + 1) - begin).decode('ISO-8859-1')
+            buf.seek(pos)
+        except Exception:   # noqa
+            raw = None
+        with warnings.catch_warnings(record=True) as w:
+            warnings.simplefilter('always')
+            try:
+                out = orig(buf, begin, end, delim, supplemental)
+                exc = None
+            except Exception as e:   # noqa
+                out, exc = None, e
+        for x in w:
+            warnings.warn_explicit(x.message, x.category, x.filename, x.lineno)
+        if raw is not None and not (delim is None and supplemental):
+            try:
+                d = delim if delim is not None else (raw[0] if raw else None)
+                if d is not None or raw == '':
+                    cls, want = textseg.parse(raw, d, supplemental) if raw else ('ok', {})
+                    got_cls = 'error' if exc is not None else ('warn' if any('ill-formed TEXT' in str(x.message) for x in w) else 'ok')
+                    got = None if exc is not None else out[0]
+                    ok = (got_cls == cls) and (got == want)
+                    mon.ctx.counters['chk_textseg_insitu'] += 1
+                    mon.chk(ok, 'textseg-insitu:' + ('ill-formed-accepted' if cls == 'error' else 'well-formed-rejected'
+                                                     if got_cls == 'error' else 're-paired-or-warning'),
+                            raw=raw[:300], delim=d, supplemental=supplemental, got=[got_cls, got], want=[cls, want])
+            except Exception as e:   # noqa
+                mon.ctx.counters['oracle_errors'] += 1
+                mon.ctx.note('oracle-error textseg: ' + core.exc_str(e))
+        if exc is not None:
+            raise exc
+        return out
+    return read_fcs_text_segment
